@@ -22,6 +22,11 @@ class Message:
             raise Error('Space can only appear in the very last arg')
         if any('\n' in arg or '\r' in arg for arg in self.args if isinstance(arg, str)):
             raise Error('No newline allowed')
+        command = str(self.command)
+        if not command or command.startswith(':') or any(c in command for c in ' \r\n'):
+            raise Error('Invalid command')
+        if self.prefix is not None and any(c in str(self.prefix) for c in ' \r\n'):
+            raise Error('No space or newline allowed in the prefix')
 
     @staticmethod
     def from_string(s):
